@@ -1476,7 +1476,7 @@ func runC10(c *Ctx) error {
 	for _, k := range []string{"corpus-vote-veto-reorg", "corpus-coinbase-respend", "corpus-contract-two-branches"} {
 		cases = append(cases, &Case{ID: len(cases), Seed: 1, Kind: k})
 	}
-	n := c.N(110, 900)
+	n := c.N(150, 900)
 	kinds := []string{"random", "random", "votes", "votes", "contracts", "deep"}
 	for i := 0; i < n; i++ {
 		cases = append(cases, &Case{ID: len(cases), Seed: c.Rng.Next(), Kind: kinds[c.Rng.Intn(len(kinds))]})
